@@ -14,6 +14,9 @@ RULES = [
     ("r7", "55555555-5555-4555-8555-555555555555", "Title E", {"sel": {"EventID": [7, 11, 4688]}, "condition": "sel"}, {"product": "windows", "service": "system"}),
     ("r8", "66666666-6666-4666-8666-666666666666", "Title F", {"sel": {"EventID": 4688}, "condition": "sel"}, {"product": "windows", "service": "security"}),
     ("r9", "77777777-7777-4777-8777-777777777777", "Title G", {"sel": {"f": "g"}, "condition": ["1 of nomatch2*", "sel", "all of nope*"]}),
+    # modifier chains the modifier validators look at (allowed repetitions, forbidden combinations, every list-valued attribute of an item)
+    ("r10", "88888888-8888-4888-8888-888888888888", "Title H", {"sel": {"a|base64|contains": "x", "b|base64|base64": "y", "c|base64offset|contains": "z", "d|contains|all": ["p", "q"], "e|re|i": "k.*", "g|windash|contains": "-x",
+                                                                   "h|all": "single", "i|contains|contains": "dup", "j|cased|startswith": "Ab"}, "condition": "sel"}),
 ]
 PIPELINE = {"name": "p", "priority": 10, "transformations": [{"id": "ac", "type": "add_condition", "conditions": {"idx": "main"}}, {"id": "fm", "type": "field_name_mapping", "mapping": {"f": "F"}}]}
 
@@ -61,9 +64,11 @@ class C19Bounded(Bounded):
                 pass
             except Exception:
                 names.append(n)
-        perms = list(itertools.permutations(range(len(RULES))))
-        rnd.shuffle(perms)
-        perms = perms[: (8 if tier == "quick" else 40)]
+        perms = [tuple(range(len(RULES))), tuple(reversed(range(len(RULES))))]      # random orders (the number of all orders grows with the factorial of the number of rules)
+        while len(perms) < (8 if tier == "quick" else 40):
+            pm = tuple(rnd.sample(range(len(RULES)), len(RULES)))
+            if pm not in perms:
+                perms.append(pm)
         vorders = [names, list(reversed(names))] + [rnd.sample(names, len(names)) for _ in range(2 if tier == "quick" else 6)]
         baseline = None
         for perm in perms:
